@@ -1133,6 +1133,55 @@ func (r *cacheRun) pickCost(rng *rand.Rand, k int) int64 {
 	return 1
 }
 
+// fifoUpgradeProbe (C09, C05; deterministic through yield point 261): a FIFO Get finds its key expired under the read
+// lock and upgrades to the write lock; between the read unlock and the write lock a synchronous Set refreshes the key
+// in place. The Get then serves the refreshed entry - and the entry keeps its place in insertion order: the next
+// insert into the full shard evicts it (the earliest inserted), not the second oldest.
+func fifoUpgradeProbe(m *meta) {
+	for rep := 0; rep < 4; rep++ {
+		kioshun.VerifSetClock(true, 1000)
+		c, err := kioshun.New[int, int](kioshun.Config{MaxSize: 3, ShardCount: 1, EvictionPolicy: kioshun.FIFO, StatsEnabled: rep%2 == 0})
+		must(err)
+		ctx := fmt.Sprintf("FIFO lock-upgrade probe %d", rep)
+		watch(ctx)
+		c.Set(1, 1, 10*time.Nanosecond)
+		c.Set(2, 2, kioshun.NoExpiration)
+		c.Set(3, 3, kioshun.NoExpiration)
+		kioshun.VerifAdvance(100)
+		kioshun.VerifSchedReset(true, 2*time.Second)
+		var gv int
+		var gok bool
+		kioshun.VerifSchedSpawn(1, func() { gv, gok = c.Get(1) })
+		p := stepUntil(1, 261)
+		if p != 261 {
+			kioshun.VerifSchedRelease()
+			kioshun.VerifSchedReset(false, 0)
+			unwatch()
+			c.Close()
+			m.count("fifo_upgrade_setup_failed")
+			continue
+		}
+		c.Set(1, 11, time.Hour) // lands between RUnlock and Lock
+		if q := stepUntil(1); q != kioshun.VerifStepDone {
+			m.violate("C07", fmt.Sprintf("%s: Get(1) parked between its read unlock and write lock did not finish after Set(1,11,1h) completed (step result %d)", ctx, q), ctx)
+		}
+		kioshun.VerifSchedRelease()
+		kioshun.VerifSchedReset(false, 0)
+		if !gok || gv != 11 {
+			m.violate("C05", fmt.Sprintf("%s: Set(1,1,10ns), Set(2), Set(3); clock +100ns; Get(1) saw the entry expired and released the read lock; Set(1,11,1h) completed; the Get then returned (%d,%v): the refreshed entry is live and must be served (or the key reported absent, never the stale value)", ctx, gv, gok), ctx)
+		}
+		order := c.VerifListKeys(0)
+		c.Set(4, 4, kioshun.NoExpiration)
+		e1, e2 := c.Exists(1), c.Exists(2)
+		if e1 || !e2 {
+			m.violate("C09", fmt.Sprintf("%s: FIFO, capacity 3: Set(1,ttl 10ns), Set(2), Set(3); key 1 expires; a Get(1) upgrading its lock is overtaken by Set(1,11,1h) (an update: insertion order unchanged) and serves it; list order then %v; Set(4) must evict key 1, the earliest inserted - resident afterwards: key 1 %v, key 2 %v", ctx, order, e1, e2), ctx)
+		}
+		unwatch()
+		c.Close()
+		m.count("fifo_upgrade_probes")
+	}
+}
+
 func streamCache(o opts, focus string) {
 	rng := newRand(o.seed, "cache"+focus)
 	m := newMeta("cache", o.seed)
@@ -1297,8 +1346,11 @@ func streamCache(o opts, focus string) {
 			m.sample(fmt.Sprintf("cfg=%+v listeners=%d weigher=%d ops=%d first=%v", conf, lst, wmode, len(r.ops), r.ops[:min(8, len(r.ops))]))
 		}
 	}
-	kioshun.VerifSetClock(false, 0)
 	kioshun.VerifTraceOn(false)
+	if focus == "" || focus == "C09" || focus == "C05" {
+		fifoUpgradeProbe(m)
+	}
+	kioshun.VerifSetClock(false, 0)
 	w.Close()
 	m.Traces, m.Ops = w.traces, w.ops
 	m.write(o.out)
